@@ -7,6 +7,21 @@ CHAIN_NOTE = ("Trusted base: the harness wallet/miner/reference models in /verif
               "Sampling, not enumeration: a clean batch is evidence, not proof.")
 
 CHECKS = {
+ "C01": dict(engine="chainsim", cat="exploration", ref="5/C01",
+   text="Seeded simulation over fork trees with fees, all kernel variants and offsets plus one re-rooted, re-mined byzantine block per value-corruption class; after every head change stored block sums are compared with sums recomputed over the full state, Chain::validate runs and the wallet-known value of the unspent set must equal the height-determined supply; corrupted blocks must be refused on every delivery path.",
+   technique="deterministic simulation: seeded histories with single-field value corruptions against a conservation oracle"),
+ "C04": dict(engine="chainsim", cat="exploration", ref="5/C04",
+   text="Seeded simulation of real-PoW header chains mined by simulated miners with skewed/jumping clocks across all header versions and both retargets; every single-field header mutation (re-mined where needed) is delivered through process_block, process_block_header and sync_block_headers and must be refused and not stored; every honest header's difficulty is compared with an independent re-implementation of the retarget and its minimum/damp/clamp envelope; future-time-limit decode checked at the boundary with a one hour margin.",
+   technique="deterministic simulation: seeded header histories with byzantine header mutations plus a reference retarget model"),
+ "C06": dict(engine="chainsim", cat="exploration", ref="5/C06",
+   text="Twin simulation: a node and a twin receive the same seeded history, the node additionally receives inputs failing at every pipeline stage (including late root/size mismatches after the block touched the working MMRs, and failing header batches); the failing call must leave head, roots, sizes and the unspent view unchanged, and every later result and state digest must equal the twin's.",
+   technique="deterministic simulation: differential twin execution under injected invalid inputs"),
+ "C13": dict(engine="chainsim", cat="exploration", ref="5/C13",
+   text="Seeded simulation over fork trees whose honest spends and locks sit exactly on the maturity / lock-height / NRD thresholds on every fork and byzantine blocks one step inside each threshold; honest blocks must be accepted (also when re-applied through a reorg), byzantine ones refused, across restarts and delivery orders.",
+   technique="deterministic simulation: seeded fork histories with threshold-boundary workloads against a per-branch rule model"),
+ "C15": dict(engine="chainsim", cat="exploration", ref="5/C15",
+   text="Seeded simulation: after every delivery (forks, reorgs, restarts) the committed bitmap root must equal an accumulator built from scratch over the reported unspent set and an independent re-implementation; a re-mined block committing to a bitmap with one flipped bit must be refused.",
+   technique="deterministic simulation: seeded apply/rewind histories against a from-scratch bitmap commitment model"),
  "C03": dict(engine="chainsim", cat="exploration", ref="5/C03",
    text="Seeded simulation: real Chain replicas are fed generated fork trees (real PoW worlds and SKIP_POW worlds with free per-block difficulties) in seeded delivery orders with duplicates, child-before-parent, header batches and clean restarts; after every delivery head/header_head are compared with a most-work model driven by the node's own accept events, and at quiescence every replica must equal a reference node fed the winning chain alone and pass full validation.",
    technique="deterministic simulation: seeded schedule search over block/header delivery orders against a most-work reference model"),
